@@ -407,6 +407,7 @@ class AgentExecutingComponent(rpu.AgentComponent):
         if td['environment']:
             ret += '\n# task env settings\n'
             for key, val in td['environment'].items():
+                val  = str(val).replace('"', '\\"')
                 ret += 'export %s="%s"\n' % (key, val)
 
         return ret
